@@ -52,6 +52,14 @@ ImageMatrix(x, y) == LET m0 == DrawMatrix(x, y)     \* resolution 1 px/mm
                          m1 == IF csys \in {2,3} THEN MMul(m0, MRefYAbout2(ImgH)) ELSE m0
                      IN IF csys \in {1,2} THEN MMul(m1, MRefXAbout2(ImgW)) ELSE m1
 
+\* FitImage(img 4 x 6 px, rect (x,y)-(x+8,y+4), ImageCover): the image is cropped to 4 x 2 px (two rows off the top and the
+\* bottom) and scaled by 2 onto the rectangle; FitImage(.., rect (x,y)-(x+8,y+12), ImageFill): scaled by 2, no crop. The
+\* image keeps its upright orientation in flipped systems: it is mirrored about the size of the image that is drawn.
+FitW == 4
+FitMatrix(x, y, h) == LET m0 == MMul(DrawMatrix(x, y), MSc(2, 2))
+                          m1 == IF csys \in {2,3} THEN MMul(m0, MRefYAbout2(h)) ELSE m0
+                      IN IF csys \in {1,2} THEN MMul(m1, MRefXAbout2(FitW)) ELSE m1
+
 \* ---- call alphabet ----------------------------------------------------------------------------
 Views == IF Profile = "small" THEN {MTr(3,1), MSc(2,2), MRot90(1)}
          ELSE {MTr(3,1), MSc(2,2), MRot90(1), MSh(1,0), MSc(-1,1), MTr(-2,5)}
@@ -121,11 +129,11 @@ CoordCalls ==
 DrawCalls ==
   CASE Profile = "stack"  -> {Call("DrawPath", <<2,1>>), Call("DrawText", <<0,0>>)}
     [] Profile = "zorder" -> {Call("DrawPath", <<0,0>>), Call("DrawImage", <<2,1>>), Call("DrawText", <<2,1>>)}
-    [] Profile = "canvas" -> {Call("DrawPath", <<2,1>>), Call("DrawImage", <<0,0>>), Call("DrawLine", <<1,2>>)}
+    [] Profile = "canvas" -> {Call("DrawPath", <<2,1>>), Call("DrawImage", <<0,0>>), Call("DrawLine", <<1,2>>), Call("FitImageCover", <<1,1>>)}
     [] OTHER ->
         {Call("DrawPath", p) : p \in Pos} \cup {Call("DrawText", p) : p \in Pos} \cup {Call("DrawImage", p) : p \in Pos}
         \cup {Call("Fill", <<>>), Call("Stroke", <<>>), Call("FillStroke", <<>>)}
-        \cup {Call("DrawLine", <<1,2>>)}
+        \cup {Call("DrawLine", <<1,2>>), Call("FitImageCover", <<1,1>>), Call("FitImageFill", <<0,2>>)}
 
 CanvasCalls ==
   CASE Profile = "stack"  -> {}
@@ -168,13 +176,15 @@ DoPop == /\ IF stack = <<>> THEN UNCHANGED <<st, view, cview, csys, stack>>     
 ZC(k) == z' = k /\ Log(Call("SetZIndex", <<k>>)) /\ UNCHANGED <<st, view, cview, csys, stack, layers, W, H>>
 DoZ == \E k \in ZCalls : ZC(k)
 
-PathLayer(s, m) == [z |-> z, kind |-> "path", m |-> m, st |-> s, step |-> Step]
+PathLayer(s, m) == [z |-> z, kind |-> "path", m |-> m, st |-> s, step |-> Step, iw |-> 0, ih |-> 0]
 DrawC(c) ==
     /\ layers' =
         CASE c.op = "DrawPath"   -> IF HasFill(st) \/ HasStroke(st) THEN Append(layers, PathLayer(st, DrawMatrix(c.a[1], c.a[2]))) ELSE layers
           [] c.op = "DrawLine"   -> IF HasFill(st) \/ HasStroke(st) THEN Append(layers, [PathLayer(st, DrawMatrix(c.a[1], c.a[2])) EXCEPT !.kind = "line"]) ELSE layers
-          [] c.op = "DrawText"   -> Append(layers, [z |-> z, kind |-> "text", m |-> TextMatrix(c.a[1], c.a[2]), st |-> DefaultStyle, step |-> Step])
-          [] c.op = "DrawImage"  -> Append(layers, [z |-> z, kind |-> "image", m |-> ImageMatrix(c.a[1], c.a[2]), st |-> DefaultStyle, step |-> Step])
+          [] c.op = "DrawText"   -> Append(layers, [z |-> z, kind |-> "text", m |-> TextMatrix(c.a[1], c.a[2]), st |-> DefaultStyle, step |-> Step, iw |-> 0, ih |-> 0])
+          [] c.op = "DrawImage"  -> Append(layers, [z |-> z, kind |-> "image", m |-> ImageMatrix(c.a[1], c.a[2]), st |-> DefaultStyle, step |-> Step, iw |-> ImgW, ih |-> ImgH])
+          [] c.op = "FitImageCover" -> Append(layers, [z |-> z, kind |-> "image", m |-> FitMatrix(c.a[1], c.a[2], 2), st |-> DefaultStyle, step |-> Step, iw |-> FitW, ih |-> 2])
+          [] c.op = "FitImageFill"  -> Append(layers, [z |-> z, kind |-> "image", m |-> FitMatrix(c.a[1], c.a[2], 6), st |-> DefaultStyle, step |-> Step, iw |-> FitW, ih |-> 6])
           [] c.op = "Fill"       -> LET s == [st EXCEPT !.stroke = "none"] IN
                                     IF HasFill(s) THEN Append(layers, PathLayer(s, DrawMatrix(0,0))) ELSE layers
           [] c.op = "Stroke"     -> LET s == [st EXCEPT !.fill = "none"] IN
@@ -191,7 +201,7 @@ LocalBox2(l) ==   \* twice the local bounds
                             IN <<0 - hw2, 0 - hw2, 8 + hw2, 6 + hw2>>
     ELSE IF l.kind = "line" THEN LET hw2 == IF HasStroke(l.st) THEN l.st.width ELSE 0       \* the horizontal line (0,0)-(6,0)
                                  IN <<0 - hw2, 0 - hw2, 12 + hw2, 0 + hw2>>
-    ELSE IF l.kind = "image" THEN <<0, 0, 2*ImgW, 2*ImgH>>
+    ELSE IF l.kind = "image" THEN <<0, 0, 2*l.iw, 2*l.ih>>
     ELSE <<0,0,0,0>>                                                               \* text: not modelled (Fit is disabled when text is present)
 Box2(l) == LET b == LocalBox2(l)
                m2 == <<l.m[1], l.m[2], 2*l.m[3], l.m[4], l.m[5], 2*l.m[6]>>        \* acts on doubled coordinates
